@@ -71,7 +71,14 @@ class Probes:
             log.append(('H', key))
             return self.val(self.stepno, key)
 
-        d = dict(E=E, X=X, A=A, G=G, K=K, T=T, H=H, U=self.U)
+        def S(cid, *values):
+            log.append(('S', cid) + tuple(values))
+            return True
+
+        def W():
+            return any(e[0] in ('E', 'X', 'A') for e in log)
+
+        d = dict(E=E, X=X, A=A, G=G, K=K, T=T, H=H, W=W, S=S, U=self.U)
         d.update(extra)
         return d
 
